@@ -118,6 +118,27 @@ def main():
             out["init_cdb"].append([v, "ok", len(SCSICommand.init_cdb(OpCode("x", v, {})))])
         except Exception as e:  # noqa
             out["init_cdb"].append([v, "exn", type(e).__name__])
+    # the CDB a command CLASS builds for an operation code, after the class has already built an ordinary command (and another one of another
+    # group): the length must still be the one the group of THAT operation code prescribes, refused codes must still be refused
+    out["class_cdb"] = []
+    try:
+        from pyscsi.pyscsi.scsi_cdb_inquiry import Inquiry
+        from pyscsi.pyscsi.scsi_cdb_read10 import Read10
+        from pyscsi.pyscsi.scsi_cdb_testunitready import TestUnitReady
+        from pyscsi.pyscsi.scsi_cdb_write16 import Write16
+        from pyscsi.pyscsi.scsi_enum_command import sbc
+        Inquiry(sbc.INQUIRY)
+        Read10(sbc.READ_10, 512, 1, 1)
+        TestUnitReady(sbc.TEST_UNIT_READY)
+        Write16(sbc.WRITE_16, 512, 1, 1, bytearray(512))
+        for cls in (Inquiry, Read10, TestUnitReady, Write16):
+            for v in range(256):
+                try:
+                    out["class_cdb"].append([cls.__name__, v, "ok", len(cls.marshall_cdb({"opcode": v}))])
+                except Exception as e:  # noqa
+                    out["class_cdb"].append([cls.__name__, v, "exn", type(e).__name__])
+    except Exception as e:  # noqa
+        out["class_cdb"].append(["?", -1, "exn", "setup: %s" % type(e).__name__])
     print(json.dumps(out))
 
 
